@@ -179,7 +179,7 @@ def reference_inclusion(rep, tier, G, parser):
     context-free dialect of DOCS.md, so a model is an input of which the parser "understood" something the dialect
     does not contain (a token consumed and dropped, a clause in a place where it means nothing)."""
     from harness import refsym
-    NR = int(os.environ.get("VERIF_C07_NR", 0)) or (12 if tier == "quick" else 17)
+    NR = int(os.environ.get("VERIF_C07_NR", 0)) or (13 if tier == "quick" else 17)
     budget = 300 if tier == "quick" else 3000
     tok, length = gram.mk_stream(NR, "r")
     t0 = time.time()
